@@ -135,12 +135,10 @@ def moduleFactoryFactory(factory):
             mod = ModuleType(name)
             objs = factory(baseModule, *args, **kwargs)
             mod.__dict__.update(objs)
-            if "name" not in moduleCache:
+            if name not in moduleCache:
                 moduleCache[name] = {}
-            if "args" not in moduleCache[name]:
+            if args not in moduleCache[name]:
                 moduleCache[name][args] = {}
-            if "kwargs" not in moduleCache[name][args]:
-                moduleCache[name][args][kwargs_tuple] = {}
             moduleCache[name][args][kwargs_tuple] = mod
             return mod
 
